@@ -80,6 +80,8 @@ def sym_param(c: Ctx, name: str, rank: int, tag: Any, depth: Any) -> STensor:
 def oracle_factor(p: STensor, kind: str) -> Any:
     """The u-muP factor of the property statement, written independently of the library (z3 term)."""
     c = Ctx.cur
+    if not hasattr(p, "mup_type"):
+        return z3.RealVal(1)  # untagged parameter, explicitly allowed: left unscaled
     tag = p.mup_type  # type: ignore[attr-defined]
     sh = p.shape
     if len(sh) == 1:
@@ -131,7 +133,7 @@ def param_sets(tier: str) -> List[List[Tuple[int, str, str]]]:
 def configs(tier: str) -> List[Dict[str, Any]]:
     th = tier == "thorough"
     out = []
-    structures = ["bare", "generator", "groups_own_lr", "groups_no_lr", "mixed"]
+    structures = ["bare", "generator", "groups_own_lr", "groups_no_lr", "mixed", "plain_in_group"]
     apis = ["scaled_adam", "scaled_sgd_none", "scaled_sgd_out", "Adam", "AdamW", "SGD_none", "SGD_out"]
     psets = param_sets(tier)
     i = 0
@@ -219,6 +221,13 @@ def build(cfg: Dict[str, Any], mkparam: Callable[[str, int, str, str], Any], mkl
         groups = [g0, g1]
         arg = groups
         exp = [(p, glr, gwd) for p in ps[:2]] + [(p, glr, g1["weight_decay"]) for p in ps[2:]]
+    elif st == "plain_in_group":  # allow_non_unit_scaling_params=True: a plain nn.Parameter between tagged ones, in one group
+        plain = mkparam("plain", 2, "<missing>", "none")
+        ps = ps[:1] + [plain] + ps[1:]
+        g0 = {"params": list(ps), "momentum": 0.5}
+        groups = [g0]
+        arg = groups
+        exp = [(p, glr, gwd) for p in ps]
     else:  # mixed: a bare parameter between groups
         g0 = {"params": ps[:1], "lr": mklr("lr0")}
         groups = [g0]
@@ -247,7 +256,7 @@ def harness(cfg: Dict[str, Any], props: Sequence[str]) -> Callable[[Ctx], None]:
             snap_params = [list(g["params"]) for g in groups]
             lr_objs = [x for x in [glr] + [g.get("lr") for g in groups] if isinstance(x, STensor)]
             lr_vals = [x.const.z for x in lr_objs]
-            out = _call_api(cfg, arg, glr, gwd)
+            out = _call_api(cfg, arg, glr, gwd, allow=(cfg["structure"] == "plain_in_group"))
             kind = kind_of(cfg["api"])
             if "C10" in props:
                 c.oblige("one group per parameter", z3.BoolVal(len(out) == len(exp)), info={**info, "claim": "count"})
@@ -255,11 +264,11 @@ def harness(cfg: Dict[str, Any], props: Sequence[str]) -> Callable[[Ctx], None]:
                     f = oracle_factor(p, kind)
                     got = lr_value(g["lr"])
                     want = lr_value(slr) * f
-                    c.oblige(f"lr[{i}:{p.mup_type}/{len(p.shape)}d] = source lr * u-muP factor", got == want,
+                    c.oblige(f"lr[{i}:{getattr(p, 'mup_type', 'untagged')}/{len(p.shape)}d] = source lr * u-muP factor", got == want,
                              info={**info, "claim": "lr", "index": i}, tol=approx(got, want))
                     c.oblige(f"lr[{i}] has the caller's kind (float/tensor)", z3.BoolVal(isinstance(g["lr"], STensor) == (cfg["lr"] == "tensor")),
                              info={**info, "claim": "lrkind", "index": i})
-                if len(exp) >= 1 and exp[0][0].mup_type == "weight":
+                if len(exp) >= 1 and getattr(exp[0][0], "mup_type", None) == "weight":
                     c.oblige("control: weight lr unscaled (must be sat)", lr_value(out[0]["lr"]) == lr_value(exp[0][1]), kind="control")
             if "C11" in props:
                 ok_order = len(out) == len(exp) and all(len(g["params"]) == 1 and g["params"][0] is p for g, (p, _, _) in zip(out, exp))
@@ -280,9 +289,11 @@ def harness(cfg: Dict[str, Any], props: Sequence[str]) -> Callable[[Ctx], None]:
                 c.oblige("caller's lr tensors not written", z3.BoolVal(all(x.version == 0 for x in lr_objs)), info={**info, "claim": "lrversion"})
                 for x, v in zip(lr_objs, lr_vals):
                     c.oblige("caller's lr tensor keeps its value", x.const.z == v, info={**info, "claim": "lrvalue"})
-                outs_lr = [g["lr"] for g in out if isinstance(g["lr"], STensor)]
+                # "a shared tensor learning rate is not aliased between SCALED groups": groups of explicitly allowed untagged
+                # parameters are left unscaled and keep the caller's tensor (observed, outside the property's wording)
+                outs_lr = [g["lr"] for g in out if isinstance(g["lr"], STensor) and hasattr(g["params"][0], "mup_type")]
                 alias = any(a is b for a, b in itertools.combinations(outs_lr, 2)) or any(a is b for a in outs_lr for b in lr_objs)
-                c.oblige("no lr tensor aliased between groups or with the caller's", z3.BoolVal(not alias), info={**info, "claim": "alias"})
+                c.oblige("no lr tensor aliased between scaled groups or with the caller's", z3.BoolVal(not alias), info={**info, "claim": "alias"})
                 for i, ((p, slr, swd), g) in enumerate(zip(exp, out)):
                     lo, wo, wi = lr_value(g["lr"]), lr_value(g["weight_decay"]), lr_value(swd)
                     if cfg["independent_wd"]:
@@ -306,6 +317,8 @@ def concrete_run(cfg: Dict[str, Any], model: Dict[str, Any], steps: int = 0) -> 
     def mkparam(name: str, r: int, t: str, d: str) -> Any:
         shape = tuple(min(int(model.get(f"{name}_d{i}", 2 + i)), 64) for i in range(r))
         depth = int(model.get(f"{name}_depth", 7)) if d == "sym" else None
+        if t == "<missing>":
+            return torch.nn.Parameter(torch.ones(shape, dtype=torch.float64))
         return uu.Parameter(torch.ones(shape, dtype=torch.float64), t, depth)
 
     def mklr(name: str) -> Any:
@@ -319,7 +332,7 @@ def concrete_run(cfg: Dict[str, Any], model: Dict[str, Any], steps: int = 0) -> 
     snap = copy.copy([dict(g) for g in groups])
     lr_objs = [x for x in [glr] + [g.get("lr") for g in groups] if isinstance(x, torch.Tensor)]
     lr_before = [float(x) for x in lr_objs]
-    out = _call_api(cfg, arg, glr, gwd)
+    out = _call_api(cfg, arg, glr, gwd, allow=(cfg["structure"] == "plain_in_group"))
     res: Dict[str, Any] = {"out": out, "exp": exp, "groups": groups, "snap": snap, "lr_objs": lr_objs, "lr_before": lr_before, "ps": ps}
     return res
 
@@ -341,9 +354,10 @@ def replay_optim(obname: str, model: Dict[str, Any], info: Any) -> Tuple[bool, s
     if claim == "lr":
         i = info["index"]
         p, slr, swd = exp[i]
-        want = float(slr) * c_oracle_factor(tuple(p.shape), p.mup_type, p.mup_scaling_depth, kind)
+        tagged = hasattr(p, "mup_type")
+        want = float(slr) * (c_oracle_factor(tuple(p.shape), p.mup_type, p.mup_scaling_depth, kind) if tagged else 1.0)
         got = float(out[i]["lr"])
-        return abs(got - want) > 1e-6 * abs(want), f"{where}: group {i} ({p.mup_type}, shape {tuple(p.shape)}, depth {p.mup_scaling_depth}) lr={got!r}, rule gives {want!r}"
+        return abs(got - want) > 1e-6 * abs(want), f"{where}: group {i} ({getattr(p, 'mup_type', 'untagged')}, shape {tuple(p.shape)}) lr={got!r}, rule gives {want!r}"
     if claim == "lrkind":
         i = info["index"]
         return isinstance(out[i]["lr"], torch.Tensor) != (cfg["lr"] == "tensor"), f"{where}: lr type {type(out[i]['lr'])}"
@@ -365,7 +379,7 @@ def replay_optim(obname: str, model: Dict[str, Any], info: Any) -> Tuple[bool, s
         now = [float(x) for x in r["lr_objs"]]
         return now != r["lr_before"], f"{where}: caller lr tensors {r['lr_before']} -> {now}"
     if claim == "alias":
-        outs = [g["lr"] for g in out if isinstance(g["lr"], torch.Tensor)]
+        outs = [g["lr"] for g in out if isinstance(g["lr"], torch.Tensor) and hasattr(g["params"][0], "mup_type")]
         alias = any(a is b or a.data_ptr() == b.data_ptr() for a, b in itertools.combinations(outs, 2)) or \
             any(a is b or a.data_ptr() == b.data_ptr() for a in outs for b in r["lr_objs"])
         return alias, f"{where}: lr tensor aliasing={alias}"
